@@ -42,7 +42,9 @@ def check(case):
     signal.alarm(60)                      # a read that does not come back is an undeclared outcome too
     try:
         out = objectio.read_pil(text)
-    except ALLOWED:
+    except ALLOWED as e:
+        if case.get("must_read"):
+            return f"a document whose only oddity is a line that is announced as ignored was refused: {type(e).__name__}: {e}"
         out = None
     except RecursionError:
         return None
